@@ -49,6 +49,12 @@ def scenarios(tier, rng):
             add(S("", [P(1)], ["pre"], [], connacks=[{"silent": True}] * k, opts=dict(o, connTimeoutMs=15)), hook=(k == 2))
         # success resets the back-off: fail fail ok(lost) fail ok
         add(S("", [P(1)], ["pre"], [{"p": "PUBLISH", "n": 1, "o": "cutBefore"}], dials=["fail", "fail", "ok", "fail", "fail", "ok"], opts=dict(o)), hook=True)
+    # the transport dying while CONNECT is written / right after the broker processed it, first and later connections
+    for n in (1, 2):
+        for oc in ("cutBefore", "cutAfter"):
+            fl = [{"p": "CONNECT", "n": n, "o": oc}] + ([{"p": "PUBLISH", "n": 1, "o": "cutAfter"}] if n == 2 else [])
+            add(S("", [P(1)], ["pre"], fl, opts={"reconnBaseMs": 2, "reconnMaxMs": 10}))
+            add(S("", [P(1)], ["pre"], fl + [{"p": "CONNECT", "n": n + 1, "o": oc}], opts={"reconnBaseMs": 2, "reconnMaxMs": 10}), hook=(oc == "cutBefore"))
     # every way an established connection can end unexpectedly
     o = {"reconnBaseMs": 2, "reconnMaxMs": 10}
     for n in range(1, 3):
